@@ -131,6 +131,21 @@ def harness_batch(lines):
     return batch([HARNESS_BIN], lines)
 
 
+def harness_batch_parallel(lines, jobs=6):
+    """for requests that carry no state from one line to the next (whole-driver scenarios): several harness processes"""
+    from concurrent.futures import ThreadPoolExecutor
+    if len(lines) < 2 * jobs:
+        return harness_batch(lines)
+    parts = [lines[i::jobs] for i in range(jobs)]
+    with ThreadPoolExecutor(max_workers=jobs) as ex:
+        outs = list(ex.map(harness_batch, parts))
+    res = [None] * len(lines)
+    for i, o in enumerate(outs):
+        for k, line in enumerate(o):
+            res[i + k * jobs] = line
+    return res
+
+
 def driver_batch(lines):
     return batch([DRIVER_BIN], lines)
 
